@@ -169,7 +169,7 @@ func init() {
 		Batches: [2]int{1, 10}, PerBatch: [2]int{64, 64}, Cases: [2]int{250, 800},
 		Rule:        "cases = (schema with service- and method-level header declarations: required/optional x type {string,integer,number,boolean,array,unset} x format {uuid,email,date-time,date,time,unset}, overriding) x RPC x header value set (absent, empty, must-accept, must-reject per type/format incl. non-UTF-8, grey) x body valid / undecodable. Oracle = reference header validator H with documented merge semantics: dispatch iff every required header is in its must-accept set, else 400 with exactly one violation per offending header even when the body is undecodable; grey values only judged for no-5xx. Non-trivial = a required header with a format or non-string type, an override, or >= 2 offending headers; distinct by (request line, header set).",
 		Assumptions: append([]string{"must-accept / must-reject sets come from RFC 4122, RFC 3339 and sebuf's documentation (time = HH:MM:SS); everything else is grey", "service/method declarations whose names differ only in case are skipped (override semantics undocumented)"}, commonAssumptions...)})
-	registerRuntime(&runtimeCheck{ID: "C10", Profile: schema.ProfileErrors, Inner: []string{"c10", "c10ts"}, Prefix: "e", Prepare: prepareTS,
+	registerRuntime(&runtimeCheck{ID: "C10", Profile: schema.ProfileErrors, Inner: []string{"c10", "c10ts", "c10tssrv"}, Prefix: "e", Prepare: prepareTS,
 		Second: &runtimeCheck{Profile: schema.ProfileServerTransport, Inner: []string{"c10url"}, Prefix: "q", Variant: "server",
 			Batches: [2]int{1, 6}, PerBatch: [2]int{48, 64}, Cases: [2]int{100, 400},
 			Rule: "server-only schemas with path variables and (repeated, renamed) query parameters x raw requests carrying exactly one unconvertible URL value or lacking a required query parameter; oracle: 400 ValidationError in the request's content type whose violation names the proto field (not the parameter name)"},
